@@ -1,0 +1,242 @@
+//go:build verif
+
+package goja
+
+import (
+	"fmt"
+	"hash/maphash"
+	"reflect"
+	"strings"
+	"unsafe"
+)
+
+// White-box accessors for property C16 (sharing of Programs and primitive values between goroutines).
+// The memo fields of importedString are read through reflection only, so that this file compiles whatever
+// the concrete types of `u` / `scanned` are.
+
+// VerifC16NewImported returns a lazily scanned imported string regardless of the length of s.
+func VerifC16NewImported(s string) Value { return &importedString{s: s} }
+
+// VerifC16StringRepr names the internal representation of a string value.
+func VerifC16StringRepr(v Value) string {
+	switch v.(type) {
+	case asciiString:
+		return "ascii"
+	case unicodeString:
+		return "unicode"
+	case *importedString:
+		return "imported"
+	}
+	return "other"
+}
+
+// VerifC16ImportedScanned reports whether the memo flag of an imported string is set (false for other values).
+// Not synchronised: call it only while no other goroutine uses v.
+func VerifC16ImportedScanned(v Value) bool {
+	i, ok := v.(*importedString)
+	if !ok {
+		return false
+	}
+	f := reflect.ValueOf(i).Elem().FieldByName("scanned")
+	switch f.Kind() {
+	case reflect.Bool:
+		return f.Bool()
+	case reflect.Uint32, reflect.Uint64, reflect.Uint:
+		return f.Uint() != 0
+	case reflect.Int32, reflect.Int64, reflect.Int:
+		return f.Int() != 0
+	case reflect.Struct: // sync/atomic.Bool and friends: one integer field named v
+		x := f.FieldByName("v")
+		switch x.Kind() {
+		case reflect.Uint32, reflect.Uint64:
+			return x.Uint() != 0
+		case reflect.Int32, reflect.Int64:
+			return x.Int() != 0
+		}
+	}
+	panic("VerifC16ImportedScanned: unknown flag representation")
+}
+
+// VerifC16ImportedMemo forces the scan through the package's own ensureScanned and returns the memoised
+// UTF-16 array (nil for an ASCII-only string) exactly as the other methods will see it.
+func VerifC16ImportedMemo(v Value) (units []uint16, ok bool) {
+	i, isImp := v.(*importedString)
+	if !isImp {
+		return nil, false
+	}
+	_, u := devirtualizeString(i)
+	return []uint16(u), true
+}
+
+// VerifC16StringDigest calls every method of the String interface (exported and unexported) on s, with `other`
+// as the second operand, and renders the results.  Used by several goroutines on the same value at once.
+func VerifC16StringDigest(r *Runtime, s, other Value) string {
+	str, ok := s.(String)
+	if !ok {
+		return "notstring"
+	}
+	o, _ := other.(String)
+	if o == nil {
+		o = asciiString("")
+	}
+	var b strings.Builder
+	n := str.Length()
+	fmt.Fprintf(&b, "len=%d", n)
+	if n > 0 {
+		fmt.Fprintf(&b, " c0=%d cN=%d", str.CharAt(0), str.CharAt(n-1))
+	}
+	fmt.Fprintf(&b, " cat=%d tac=%d", str.Concat(o).Length(), o.Concat(str).Length())
+	if n > 2 {
+		fmt.Fprintf(&b, " sub=%q", str.Substring(1, n-1).String())
+	}
+	fmt.Fprintf(&b, " cmp=%d,%d", str.CompareTo(o), o.CompareTo(str))
+	rd := str.Reader()
+	cnt := 0
+	for {
+		_, _, err := rd.ReadRune()
+		if err != nil {
+			break
+		}
+		cnt++
+	}
+	fmt.Fprintf(&b, " runes=%d", cnt)
+	ur := str.utf16Reader()
+	cnt = 0
+	for {
+		_, err := ur.readChar()
+		if err != nil {
+			break
+		}
+		cnt++
+	}
+	fmt.Fprintf(&b, " u16=%d", cnt)
+	rr := str.utf16RuneReader()
+	cnt = 0
+	for {
+		_, _, err := rr.ReadRune()
+		if err != nil {
+			break
+		}
+		cnt++
+	}
+	fmt.Fprintf(&b, " u16r=%d u16runes=%d", cnt, len(str.utf16Runes()))
+	fmt.Fprintf(&b, " idx=%d,%d lidx=%d,%d", str.index(o, 0), o.index(str, 0), str.lastIndex(o, n), o.lastIndex(str, o.Length()))
+	fmt.Fprintf(&b, " lo=%q up=%q", str.toLower().String(), str.toUpper().String())
+	fmt.Fprintf(&b, " eq=%v,%v seq=%v,%v same=%v", str.Equals(o), o.Equals(str), str.StrictEquals(o), o.StrictEquals(str), str.SameAs(str))
+	var h maphash.Hash
+	h1 := str.hash(&h)
+	h.Reset()
+	h2 := str.hash(&h)
+	fmt.Fprintf(&b, " hash=%v", h1 == h2)
+	fmt.Fprintf(&b, " int=%d flt=%v num=%s bool=%v", str.ToInteger(), str.ToFloat(), str.ToNumber().String(), str.ToBoolean())
+	fmt.Fprintf(&b, " key=%d trim=%d", len(str.string()), len(str.toTrimmedUTF8()))
+	fmt.Fprintf(&b, " exp=%d", len(str.Export().(string)))
+	if r != nil {
+		fmt.Fprintf(&b, " obj=%s", str.ToObject(r).ClassName())
+	}
+	return b.String()
+}
+
+// VerifC16ObjectVariant builds the *Object shapes Runtime.toValue distinguishes that cannot be made through the
+// public API: "selfnil" (o.self == nil) and "noruntime" (o.runtime == nil).
+func VerifC16ObjectVariant(r *Runtime, kind string) *Object {
+	switch kind {
+	case "selfnil":
+		return &Object{runtime: r}
+	case "noruntime":
+		o := r.NewObject()
+		return &Object{self: o.self}
+	}
+	return nil
+}
+
+// VerifC16Range is an address range [Lo,Hi) of memory that is shared between Runtimes by design of the test
+// (template slots of a Program, the memo cells of an imported string), so that a race-detector report can be
+// attributed to the object it is about.
+type VerifC16Range struct {
+	Lo, Hi uintptr
+	What   string
+}
+
+// VerifC16TemplateRanges walks a Program (and every Program nested in its instructions) and returns the memory of
+// the compiled tagged-template arrays: the instruction, the two backing arrays and every property slot in them.
+func VerifC16TemplateRanges(prg *Program) []VerifC16Range {
+	var out []VerifC16Range
+	seen := map[*Program]bool{}
+	var walkPrg func(p *Program)
+	progType := reflect.TypeOf((*Program)(nil))
+	var walkVal func(v reflect.Value, depth int)
+	walkVal = func(v reflect.Value, depth int) {
+		if depth > 4 {
+			return
+		}
+		switch v.Kind() {
+		case reflect.Ptr:
+			if v.IsNil() {
+				return
+			}
+			if v.Type() == progType {
+				walkPrg((*Program)(v.UnsafePointer()))
+				return
+			}
+			if v.Elem().Kind() == reflect.Struct {
+				walkVal(v.Elem(), depth+1)
+			}
+		case reflect.Struct:
+			for i := 0; i < v.NumField(); i++ {
+				f := v.Field(i)
+				if f.Kind() == reflect.Ptr || f.Kind() == reflect.Struct {
+					walkVal(f, depth+1)
+				}
+			}
+		}
+	}
+	slots := func(what string, s []Value) {
+		if len(s) == 0 {
+			return
+		}
+		base := uintptr(unsafe.Pointer(unsafe.SliceData(s)))
+		out = append(out, VerifC16Range{base, base + uintptr(cap(s))*unsafe.Sizeof(s[0]), what + "-backing-array"})
+		for _, e := range s {
+			if p, ok := e.(*valueProperty); ok {
+				a := uintptr(unsafe.Pointer(p))
+				out = append(out, VerifC16Range{a, a + unsafe.Sizeof(*p), what + "-slot"})
+			}
+		}
+	}
+	walkPrg = func(p *Program) {
+		if p == nil || seen[p] {
+			return
+		}
+		seen[p] = true
+		for _, ins := range p.code {
+			if t, ok := ins.(*getTaggedTmplObject); ok {
+				a := uintptr(unsafe.Pointer(t))
+				out = append(out, VerifC16Range{a, a + unsafe.Sizeof(*t), "template-instruction"})
+				slots("template-raw", t.raw)
+				slots("template-cooked", t.cooked)
+				continue
+			}
+			walkVal(reflect.ValueOf(ins), 0)
+		}
+	}
+	walkPrg(prg)
+	return out
+}
+
+// VerifC16ImportedRanges returns the memory of an imported string's memo: the struct itself and, when the scan
+// has produced one, the UTF-16 array. Not synchronised: call it only while no other goroutine uses v.
+func VerifC16ImportedRanges(v Value) []VerifC16Range {
+	i, ok := v.(*importedString)
+	if !ok {
+		return nil
+	}
+	a := uintptr(unsafe.Pointer(i))
+	out := []VerifC16Range{{a, a + unsafe.Sizeof(*i), "imported-struct"}}
+	u := reflect.ValueOf(i).Elem().FieldByName("u")
+	if u.IsValid() && u.Kind() == reflect.Slice && u.Len() > 0 {
+		p := u.Pointer()
+		out = append(out, VerifC16Range{p, p + uintptr(u.Cap())*2, "imported-memo-array"})
+	}
+	return out
+}
